@@ -26,6 +26,7 @@ type Options struct {
 	Debug          bool
 	HarnessDir     string
 	Overlay        map[string][]byte
+	Tier           string
 }
 
 type Intrinsic func(m *Machine, fn *ssa.Function, args []Value) Value
